@@ -374,7 +374,7 @@ def check_C18(chk):
                         items.append(f"SHORT:{[1, 16, 31][si % 3]}")
                     else:
                         items.append(o)
-                lines.append(f"seq id={variant}-{cc}{opt}-{si} prefill={[0, 255, 165, 85][si % 4]} items={','.join(items)}")
+                lines.append(f"seq id={variant}-{cc}{opt}-{si} prefill={[0, 255, 165, 85][si % 4]} errno={[0, 11, 4, 0, 5][si % 5]} items={','.join(items)}")
             # long but finite transient runs, then success or a permanent error
             for n in ([17, 40, 1000] + ([20000] if chk.thorough else [])):
                 for it in ('EINTR', 'EAGAIN'):
